@@ -335,17 +335,18 @@ pub uninterp spec fn st_depth(t: &SymbolTable) -> nat;      // number of enclosi
 // what every code-generating function does to the compiler: it appends to the current scope's stream (everything that
 // was there stays byte for byte), records `break` placeholders only in what it appended, and leaves the scope stack,
 // the block depth and the symbol-table nesting as it found them
-pub open spec fn ext(o: &Compiler, f: &Compiler) -> bool {
+pub open spec fn ext0(o: &Compiler, f: &Compiler) -> bool {
     &&& cwf(f) && f.scope_index == o.scope_index && f.scopes@.len() == o.scopes@.len()
     &&& forall|j: int| 0 <= j < o.scope_index ==> f.scopes@[j] == o.scopes@[j]
     &&& is_prefix(code(o), code(f)) && lns(o).len() == code(o).len() && lns(o).len() <= lns(f).len() && lns(f).subrange(0, lns(o).len() as int) == lns(o)
-    &&& sc(f).scope_depth == sc(o).scope_depth && sc(f).is_filter == sc(o).is_filter
+    &&& sc(f).is_filter == sc(o).is_filter
     &&& loops_ext(sc(o).loop_stack@, sc(f).loop_stack@, code(o).len() as int)
     &&& st_depth(&f.symtab) == st_depth(&o.symtab)
     &&& (o.encoding_error is Some ==> f.encoding_error is Some)
 }
+pub open spec fn ext(o: &Compiler, f: &Compiler) -> bool { ext0(o, f) && sc(f).scope_depth == sc(o).scope_depth }
 pub open spec fn tail_ok(o: &Compiler, f: &Compiler) -> bool {
-    &&& (code(f).len() == code(o).len() ==> sc(f).instructions == sc(o).instructions && sc(f).last_ins == sc(o).last_ins && sc(f).prev_ins == sc(o).prev_ins)
+    &&& (code(f).len() == code(o).len() ==> code(f) == code(o) && lns(f) == lns(o) && sc(f).last_ins == sc(o).last_ins && sc(f).prev_ins == sc(o).prev_ins)
     &&& (code(f).len() > code(o).len() ==> sc(f).last_ins.position >= code(o).len())
 }
 pub open spec fn gen(o: &Compiler, f: &Compiler) -> bool { ext(o, f) && tail_ok(o, f) }
@@ -353,8 +354,8 @@ pub open spec fn gen(o: &Compiler, f: &Compiler) -> bool { ext(o, f) && tail_ok(
 pub open spec fn gen_s(o: &Compiler, f: &Compiler) -> bool { gen(o, f) && (code(f).len() > code(o).len() ==> fresh(&sc(f))) }
 
 pub broadcast proof fn lemma_ext_trans(a: &Compiler, b: &Compiler, c: &Compiler)
-    requires #[trigger] ext(a, b), #[trigger] ext(b, c)
-    ensures ext(a, c)
+    requires #[trigger] ext0(a, b), #[trigger] ext0(b, c)
+    ensures ext0(a, c)
 {
     assert(code(c).subrange(0, code(a).len() as int) =~= code(b).subrange(0, code(a).len() as int));
     assert(lns(c).subrange(0, lns(a).len() as int) =~= lns(b).subrange(0, lns(a).len() as int));
@@ -437,6 +438,7 @@ pub proof fn lemma_patched(o: &Compiler, f: &Compiler, pos: int, operand: usize)
         forall|p: int| #[trigger] is_start(o, p) ==> op_at(code(f), p) == op_at(code(o), p),
         fresh(&sc(o)) ==> fresh(&sc(f)),
         forall|i: int| 0 <= i < code(o).len() && !(pos < i < pos + ilen(op_at(code(o), pos))) ==> code(f)[i] == code(o)[i],
+        forall|p: int| #[trigger] is_start(o, p) ==> is_start(f, p),
 {
     let co = code(o); let cf = code(f); let st = starts(co);
     let op = op_at(co, pos);
@@ -472,15 +474,25 @@ pub proof fn lemma_patched(o: &Compiler, f: &Compiler, pos: int, operand: usize)
 }
 // op_of is injective on valid bytes: a byte that decodes to a valid opcode is that opcode's byte
 pub proof fn lemma_byte_of_op(b: u8) requires op_of(b) != Opcode::Invalid ensures byte_of(op_of(b)) == b {}
-// a patch behind the end of an earlier state keeps `ext` from that state
-pub proof fn lemma_patched_ext(a: &Compiler, o: &Compiler, f: &Compiler, pos: int)
-    requires ext(a, o), cwf(f), pos >= code(a).len(), code(f).len() == code(o).len(), lns(f) == lns(o), others_same(o, f), scope_meta_same(o, f),
-        forall|i: int| 0 <= i < code(o).len() && !(pos < i) ==> code(f)[i] == code(o)[i],
+// a change behind the end of an earlier state keeps `ext0` from that state
+pub proof fn lemma_patched_ext(a: &Compiler, o: &Compiler, f: &Compiler)
+    requires ext0(a, o), cwf(f), code(f).len() == code(o).len(), lns(f) == lns(o), others_same(o, f), scope_meta_same(o, f),
+        forall|i: int| 0 <= i < code(a).len() ==> code(f)[i] == code(o)[i],
         st_depth(&f.symtab) == st_depth(&o.symtab),
-    ensures ext(a, f)
+    ensures ext0(a, f)
 {
     assert(code(f).subrange(0, code(a).len() as int) =~= code(o).subrange(0, code(a).len() as int));
     assert forall|j: int| 0 <= j < a.scope_index implies f.scopes@[j] == a.scopes@[j] by { assert(f.scopes@[j] == o.scopes@[j]); }
+}
+pub proof fn lemma_patched_gen(a: &Compiler, o: &Compiler, f: &Compiler)
+    requires gen(a, o), cwf(f), code(f).len() == code(o).len(), lns(f) == lns(o), others_same(o, f), scope_meta_same(o, f),
+        forall|i: int| 0 <= i < code(a).len() ==> code(f)[i] == code(o)[i],
+        st_depth(&f.symtab) == st_depth(&o.symtab), sc(f).last_ins.position == sc(o).last_ins.position, sc(f).prev_ins == sc(o).prev_ins,
+        code(o).len() == code(a).len() ==> sc(f).last_ins == sc(o).last_ins,
+    ensures gen(a, f)
+{
+    lemma_patched_ext(a, o, f);
+    if code(f).len() == code(a).len() { assert(code(f) =~= code(a)); }
 }
 pub proof fn lemma_start_bounds(c: &Compiler, p: int)
     requires cwf(c), is_start(c, p)
@@ -496,7 +508,7 @@ pub proof fn lemma_removed(o: &Compiler, f: &Compiler)
     requires cwf(o), fresh(&sc(o)), code(o).len() > 0, sc(o).last_ins.opcode == Opcode::Pop, others_same(o, f), scope_meta_same(o, f),
         code(f) == code(o).subrange(0, sc(o).last_ins.position as int), lns(f) == lns(o).subrange(0, sc(o).last_ins.position as int), sc(f).last_ins == sc(o).prev_ins,
     ensures cwf(f), starts(code(f)) == starts(code(o)).drop_last(), sc(o).last_ins.position < code(o).len(),
-        forall|a: &Compiler| #[trigger] ext(a, o) && sc(o).last_ins.position >= code(a).len() && st_depth(&f.symtab) == st_depth(&o.symtab) ==> ext(a, f),
+        forall|a: &Compiler| #[trigger] ext0(a, o) && sc(o).last_ins.position >= code(a).len() && st_depth(&f.symtab) == st_depth(&o.symtab) ==> ext0(a, f),
 {
     let co = code(o); let cf = code(f); let st = starts(co);
     assert(swf(&sc(o)));
@@ -523,7 +535,7 @@ pub proof fn lemma_removed(o: &Compiler, f: &Compiler)
     }
     assert(swf(&sc(f)));
     lemma_cwf_other_scopes(o, f);
-    assert forall|a: &Compiler| #[trigger] ext(a, o) && sc(o).last_ins.position >= code(a).len() && st_depth(&f.symtab) == st_depth(&o.symtab) implies ext(a, f) by {
+    assert forall|a: &Compiler| #[trigger] ext0(a, o) && sc(o).last_ins.position >= code(a).len() && st_depth(&f.symtab) == st_depth(&o.symtab) implies ext0(a, f) by {
         assert(cf.subrange(0, code(a).len() as int) =~= co.subrange(0, code(a).len() as int));
         assert(lns(f).subrange(0, lns(a).len() as int) =~= lns(o).subrange(0, lns(a).len() as int));
         assert forall|j: int| 0 <= j < a.scope_index implies f.scopes@[j] == a.scopes@[j] by { assert(f.scopes@[j] == o.scopes@[j]); }
@@ -534,6 +546,7 @@ pub proof fn lemma_replaced(o: &Compiler, f: &Compiler)
         code(f) == code(o).subrange(0, sc(o).last_ins.position as int) + seq![byte_of(Opcode::ReturnValue)] + code(o).subrange(sc(o).last_ins.position + 1, code(o).len() as int),
         lns(f) == lns(o), sc(f).last_ins.opcode == Opcode::ReturnValue, sc(f).last_ins.position == sc(o).last_ins.position,
     ensures cwf(f), code(f).len() == code(o).len(),
+        forall|a: &Compiler| #[trigger] ext0(a, o) && sc(o).last_ins.position >= code(a).len() && st_depth(&f.symtab) == st_depth(&o.symtab) ==> ext0(a, f),
 {
     let co = code(o); let cf = code(f); let st = starts(co);
     assert(swf(&sc(o)));
@@ -560,6 +573,9 @@ pub proof fn lemma_replaced(o: &Compiler, f: &Compiler)
     }
     assert(swf(&sc(f)));
     lemma_cwf_other_scopes(o, f);
+    assert forall|a: &Compiler| #[trigger] ext0(a, o) && sc(o).last_ins.position >= code(a).len() && st_depth(&f.symtab) == st_depth(&o.symtab) implies ext0(a, f) by {
+        lemma_patched_ext(a, o, f);
+    }
 }
 pub proof fn lemma_replaced_starts(co: Seq<u8>, cf: Seq<u8>, st: Seq<int>)
     requires starts_ok(co, st), co.len() > 0, cf.len() == co.len(), st.last() + 1 == co.len(), op_at(cf, st.last()) == Opcode::ReturnValue,
@@ -575,4 +591,135 @@ pub proof fn lemma_replaced_starts(co: Seq<u8>, cf: Seq<u8>, st: Seq<int>)
     }
     assert(starts_ok(cf, st));
     lemma_starts_unique(cf, st);
+}
+
+// ================= shims for what the code generator calls outside this file =================
+#[verifier::external_body] pub fn str_is(s: &str, lit: &str) -> (r: bool) ensures r == (s@ == lit@) { s == lit }
+#[verifier::external_body] pub fn string_as_str(s: &String) -> (r: &str) ensures r@ == s@ { s.as_str() }
+#[verifier::external_body] pub fn fmt_str() -> (r: &'static str) { "" }
+// AST shapes the parser never hands to the compiler of an error-free program (Statement::Invalid: parser unit, statement
+// contracts; a Builtin identifier other than stdin/stdout/stderr: the scanner's keyword table) - listed as an assumption
+#[verifier::external_body] pub fn ast_invariant_violation() -> ! { panic!() }
+#[verifier::external_body] pub fn obj_Integer(v: i64) -> (r: Object) { unimplemented!() }
+#[verifier::external_body] pub fn obj_Float(v: f64) -> (r: Object) { unimplemented!() }
+#[verifier::external_body] pub fn obj_Str(v: String) -> (r: Object) { unimplemented!() }
+#[verifier::external_body] pub fn obj_Char(v: char) -> (r: Object) { unimplemented!() }
+#[verifier::external_body] pub fn obj_Byte(v: u8) -> (r: Object) { unimplemented!() }
+#[verifier::external_body] pub fn obj_Null() -> (r: Object) { unimplemented!() }
+#[verifier::external_body] pub fn obj_file_Stdin() -> (r: Object) { unimplemented!() }
+#[verifier::external_body] pub fn obj_file_Stdout() -> (r: Object) { unimplemented!() }
+#[verifier::external_body] pub fn obj_file_Stderr() -> (r: Object) { unimplemented!() }
+#[verifier::external_body] pub fn obj_func(instructions: Instructions, num_locals: usize, num_params: usize, line: usize) -> (r: Object) { unimplemented!() }
+#[verifier::external_body] pub fn rc_object(o: Object) -> (r: Rc<Object>) { unimplemented!() }
+#[verifier::external_body] pub fn rc_clone_symbol(s: &Rc<Symbol>) -> (r: Rc<Symbol>) ensures r == *s { s.clone() }
+#[verifier::external_body] pub fn prop_as_usize(p: &PacketPropType) -> (r: usize) { unimplemented!() }
+#[verifier::external_body] pub fn last_stmt(v: &Vec<Statement>) -> (r: Option<&Statement>) ensures r is Some == (v@.len() > 0) { v.last() }
+// the symbol table (symtab unit): none of these operations changes how many tables enclose the current one
+#[verifier::external_body] pub fn symtab_define(t: &mut SymbolTable, name: &String, depth: usize) -> (r: Rc<Symbol>) ensures st_depth(final(t)) == st_depth(old(t)) { unimplemented!() }
+#[verifier::external_body] pub fn symtab_define_function_name(t: &mut SymbolTable, name: &String) -> (r: Rc<Symbol>) ensures st_depth(final(t)) == st_depth(old(t)) { unimplemented!() }
+#[verifier::external_body] pub fn symtab_resolve(t: &mut SymbolTable, name: &String, depth: usize) -> (r: Option<Rc<Symbol>>) ensures st_depth(final(t)) == st_depth(old(t)) { unimplemented!() }
+#[verifier::external_body] pub fn symtab_leave_block(t: &mut SymbolTable, depth: usize) ensures st_depth(final(t)) == st_depth(old(t)) { unimplemented!() }
+#[verifier::external_body] pub fn symtab_get_num_definitions(t: &SymbolTable) -> (r: usize) { unimplemented!() }
+#[verifier::external_body] pub fn symtab_free_symbols_clone(t: &SymbolTable) -> (r: Vec<Rc<Symbol>>) { unimplemented!() }
+#[verifier::external_body] pub fn symtab_clone(t: &SymbolTable) -> (r: SymbolTable) ensures st_depth(&r) == st_depth(t) { unimplemented!() }
+#[verifier::external_body] pub fn symtab_new_enclosed(outer: SymbolTable) -> (r: SymbolTable) ensures st_depth(&r) == st_depth(&outer) + 1 { unimplemented!() }
+#[verifier::external_body] pub fn symtab_outer_clone(t: &SymbolTable) -> (r: SymbolTable) requires st_depth(t) > 0 ensures st_depth(&r) == st_depth(t) - 1 { unimplemented!() }
+// consuming iteration over a vector -> index loop: the element is moved out, the vector keeps its length
+#[verifier::external_body]
+pub fn vec_take_stmt(v: &mut Vec<Statement>, i: usize) -> (r: Statement) requires i < old(v)@.len() ensures final(v)@.len() == old(v)@.len(), r == old(v)@[i as int] { std::mem::replace(&mut v[i], Statement::Invalid) }
+#[verifier::external_body]
+pub fn vec_take_expr(v: &mut Vec<Expression>, i: usize) -> (r: Expression) requires i < old(v)@.len() ensures final(v)@.len() == old(v)@.len(), r == old(v)@[i as int] { std::mem::replace(&mut v[i], Expression::Invalid) }
+#[verifier::external_body]
+pub fn vec_take_pair(v: &mut Vec<(Expression, Expression)>, i: usize) -> (r: (Expression, Expression)) requires i < old(v)@.len() ensures final(v)@.len() == old(v)@.len(), r == old(v)@[i as int] { unimplemented!() }
+
+pub proof fn lemma_gen_refl(o: &Compiler, f: &Compiler)
+    requires cwf(o), f.scopes@ == o.scopes@, f.scope_index == o.scope_index, st_depth(&f.symtab) == st_depth(&o.symtab), o.encoding_error is Some ==> f.encoding_error is Some
+    ensures gen_s(o, f)
+{
+    assert(code(f).subrange(0, code(o).len() as int) =~= code(o));
+    assert(lns(f).subrange(0, lns(o).len() as int) =~= lns(o));
+    assert(swf(&sc(o)));
+    let la = sc(o).loop_stack@;
+    assert forall|k: int| 0 <= k < la.len() implies lctx_ext(#[trigger] la[k], la[k], code(o).len() as int) by {
+        assert(la[k].break_positions@.subrange(0, la[k].break_positions@.len() as int) =~= la[k].break_positions@);
+    }
+}
+
+// the two code generators not yet verified on their bodies: behind the common contract (assumption, listed)
+#[verifier::external_body]
+pub fn compile_match_expression_shim(c: &mut Compiler, e: MatchExpr) -> (r: Result<(), CompileError>) requires cwf(old(c)) ensures r is Ok ==> gen(old(c), final(c)) { unimplemented!() }
+#[verifier::external_body]
+pub fn compile_filter_statement_shim(c: &mut Compiler, e: FilterStmt) -> (r: Result<(), CompileError>) requires cwf(old(c)) ensures r is Ok ==> gen_s(old(c), final(c)) { unimplemented!() }
+pub broadcast proof fn lemma_gen_trans(a: &Compiler, b: &Compiler, c: &Compiler)
+    requires #[trigger] gen(a, b), #[trigger] gen(b, c)
+    ensures gen(a, c)
+{
+    lemma_ext_trans(a, b, c);
+}
+pub broadcast proof fn lemma_gen_s_trans(a: &Compiler, b: &Compiler, c: &Compiler)
+    requires #[trigger] gen_s(a, b), #[trigger] gen_s(b, c)
+    ensures gen_s(a, c)
+{
+    lemma_ext_trans(a, b, c);
+}
+// an instruction start of an earlier state is an instruction start, with the same opcode, of every extension of that state
+pub broadcast proof fn lemma_start_kept(a: &Compiler, b: &Compiler, p: int)
+    requires #[trigger] ext0(a, b), cwf(a), #[trigger] is_start(a, p)
+    ensures is_start(b, p), op_at(code(b), p) == op_at(code(a), p)
+{
+    assert(swf(&sc(a))); assert(swf(&sc(b)));
+    lemma_prefix_boundary(code(a), code(b));
+    let sa = starts(code(a)); let sb = starts(code(b));
+    let i = choose|i: int| 0 <= i < sa.len() && sa[i] == p;
+    assert(sb.subrange(0, sa.len() as int)[i] == sb[i]);
+    assert(starts_ok(code(a), sa));
+    assert(code(b).subrange(0, code(a).len() as int)[p] == code(b)[p]);
+}
+pub proof fn lemma_entered(o: &Compiler, f: &Compiler)
+    requires cwf(o), f.scopes@.len() == o.scopes@.len() + 1, f.scope_index == o.scope_index + 1,
+        forall|j: int| 0 <= j < o.scopes@.len() ==> f.scopes@[j] == o.scopes@[j],
+        code(f).len() == 0, lns(f).len() == 0, sc(f).loop_stack@.len() == 0,
+    ensures cwf(f)
+{
+    lemma_empty_stream(code(f));
+    assert(swf(&sc(f)));
+    assert forall|i: int| 0 <= i < f.scopes@.len() implies swf(&#[trigger] f.scopes@[i]) by {
+        if i < o.scopes@.len() { assert(swf(&o.scopes@[i])); }
+    }
+}
+
+// assumptions about sizes (listed in the evidence)
+#[verifier::external_body] pub proof fn axiom_pairs_len(v: &Vec<(Expression, Expression)>) ensures v@.len() * 2 <= usize::MAX {}
+#[verifier::external_body] pub proof fn axiom_depth_bounded(s: &CompilationScope) ensures s.scope_depth < usize::MAX {}
+pub proof fn lemma_removed_starts(o: &Compiler, f: &Compiler)
+    requires cwf(o), cwf(f), fresh(&sc(o)), code(o).len() > 0, code(f) == code(o).subrange(0, sc(o).last_ins.position as int), starts(code(f)) == starts(code(o)).drop_last(),
+        sc(f).last_ins == sc(o).prev_ins,
+    ensures forall|p: int| #[trigger] is_start(o, p) && p < sc(o).last_ins.position ==> is_start(f, p) && op_at(code(f), p) == op_at(code(o), p) && sc(f).last_ins.position >= p
+{
+    let st = starts(code(o));
+    let n = st.len() as int;
+    assert(swf(&sc(o)));
+    assert(starts_ok(code(o), st));
+    assert forall|p: int| #[trigger] is_start(o, p) && p < sc(o).last_ins.position implies is_start(f, p) && op_at(code(f), p) == op_at(code(o), p) && sc(f).last_ins.position >= p by {
+        let i = choose|i: int| 0 <= i < st.len() && st[i] == p;
+        assert(st.drop_last()[i] == p);
+        assert(i < n - 1);
+        if i < n - 2 { lemma_starts_mono(code(o), st, i, n - 2); assert(ilen(op_at(code(o), st[i])) >= 1); }
+    }
+}
+// the state right after enter_scope (and while the parameters are being defined)
+pub open spec fn entered(o: &Compiler, f: &Compiler) -> bool {
+    &&& cwf(f) && f.scope_index == o.scope_index + 1 && f.scopes@.len() == o.scopes@.len() + 1
+    &&& forall|j: int| 0 <= j < o.scopes@.len() ==> f.scopes@[j] == o.scopes@[j]
+    &&& code(f).len() == 0 && sc(f).loop_stack@.len() == 0 && sc(f).scope_depth == 0 && !sc(f).is_filter
+    &&& st_depth(&f.symtab) == st_depth(&o.symtab) + 1
+    &&& (o.encoding_error is Some ==> f.encoding_error is Some)
+}
+pub proof fn lemma_left(o: &Compiler, e: &Compiler, b: &Compiler, f: &Compiler)
+    requires cwf(o), entered(o, e), ext0(e, b), f.scopes@ == b.scopes@.drop_last(), f.scope_index == b.scope_index - 1, st_depth(&f.symtab) == st_depth(&b.symtab) - 1,
+        b.encoding_error is Some ==> f.encoding_error is Some, e.encoding_error is Some ==> b.encoding_error is Some,
+    ensures gen_s(o, f)
+{
+    assert(f.scopes@ =~= o.scopes@);
+    lemma_gen_refl(o, f);
 }
